@@ -32,7 +32,9 @@ def scenarios_for(tier):
     # the packer truncates the output when a file just written duplicates earlier blocks (also overlapping its own start): the final image must still be the input
     X, Y = content_pattern("X-incompressible", B), content_pattern("Y-incompressible", B)
     dd = [E(b"a1", "file", content=X), E(b"a2", "file", content=X * 3), E(b"a3", "file", content=X * 2 + b"tail"), E(b"b1", "file", content=X + Y),
-          E(b"b2", "file", content=(X + Y) * 2 + X), E(b"b3", "file", content=X + Y), E(b"c", "file", content=Y * 2 + b"c" * 50), E(b"d", "file", content=X * 5)]
+          E(b"b2", "file", content=(X + Y) * 2 + X), E(b"b3", "file", content=X + Y), E(b"c", "file", content=Y * 2 + b"c" * 50), E(b"d", "file", content=X * 5),
+          # holes: a file that starts with a hole right behind a file with data, a hole in the middle, a trailing hole
+          E(b"e_hole_first", "file", content=bytes(B) + Y), E(b"f_hole_mid", "file", content=X + bytes(B) + Y), E(b"g_hole_last", "file", content=Y + bytes(B)), E(b"h", "file", content=Y + X)]
     S.append(("gensquashfs", "dedup-truncate", dd, dict(comp="gzip", bs=B)))
     S.append(("tar2sqfs", "dedup-truncate", dd, dict(comp="lz4", bs=B)))
     if tier == "thorough":
